@@ -249,9 +249,9 @@ def run(ctx):
             engine = E.build(fl, spec)
             v = spec["inputs"][0]
             prop = f"{v['name']} is {v['terms'][0]['name']}"
-            n = rnd.choice([1000, 1200, 2500])
+            n = 1500 if i == 0 else rnd.choice([1000, 1200, 2500])
             parts = [prop] * n
-            glue = [rnd.choice(["and", "or"]) for _ in range(n - 1)]
+            glue = [rnd.choice(["and", "or"]) if i else "and" for _ in range(n - 1)]
             where = rnd.randrange(1, n - 1)
             kind = "good" if i == 0 else rnd.choice(["missing connective", "dangling connective", "good"])
             if kind == "missing connective":
